@@ -13,7 +13,9 @@ REQUIRED_MONITORS = ["decomposition@SD_svalsvec", "pick@FDD_mpe(function, Hermit
 ALL_STATES = ["band clipped by grid start", "band clipped by grid end", "selected frequency between lines", "maximum at band edge candidate",
               "several peaks in band", "non-square spectrum", "2 channels", "8 channels"]
 REQUIRED_STATES = ["band clipped by grid end", "selected frequency between lines", "several peaks in band", "non-square spectrum", "array object refilled in place", "band below 0 Hz while the dominant line of the grid is at Nyquist", "EFDD with cm=2",
-                   "selected frequencies of integer type", "overlapping / repeated selections in one call", "EFDD extraction repeated with another DF1", "selections exactly on spectral lines", "more than 80 dB between first and last singular value"]
+                   "selected frequencies of integer type", "overlapping / repeated selections in one call", "EFDD extraction repeated with another DF1", "selections exactly on spectral lines", "more than 80 dB between first and last singular value", "two almost equally strong peaks in one band",
+                   "two spectra of one shape and different content in one setup",
+                   "designed ratio curve: twin", "designed ratio curve: fine", "designed ratio curve: plateau"]
 RULE = ("spectral sequences: synthetic Hermitian (sums of rank-one bells with complex shapes + full-rank floor), half spectra from the 'cor' "
         "estimator, spectra of random responses through FDD / FDD_MS / EFDD; DF 1..15 line spacings, selected frequencies anywhere in the grid; "
         "postconditions on every SD_svalsvec and FDD_mpe call; non-trivial = band holds >= 3 lines and sigma1/sigma2 varies by > 1 % in it; "
@@ -35,7 +37,8 @@ def cases(tier, seed):
 def _cases(tier, seed):
     n1, n2, n3, n4 = (200, 60, 14, 30) if tier == "quick" else (4000, 1200, 200, 500)
     return ([{"cls": "hermitian_synthetic", "k": k} for k in range(n1)] + [{"cls": "half_spectrum", "k": k} for k in range(n2)]
-            + [{"cls": "through_classes", "k": k} for k in range(n3)] + [{"cls": "narrow_band", "k": k} for k in range(n4)])
+            + [{"cls": "through_classes", "k": k} for k in range(n3)] + [{"cls": "narrow_band", "k": k} for k in range(n4)]
+            + [{"cls": "designed_ratios", "k": k} for k in range(60 if tier == "quick" else 1000)])
 
 
 # ------------------------------------------------------------------------------ monitors
@@ -181,6 +184,21 @@ def run_synth(ctx, rng):
         w = rng.uniform(1, 10) * df
         bell = 1 / ((freq - f0) ** 2 + w**2)
         S += np.conj(a)[:, None, None] * a[None, :, None] * bell[None, None, :]
+    if rng.random() < 0.2:
+        # two peaks of (almost) the same strength: the later one stronger by a relative 1e-7 .. 1e-3 - the stronger one is the dominant line
+        a_ = rng.standard_normal(nch) + 1j * rng.standard_normal(nch)
+        b_ = rng.standard_normal(nch) + 1j * rng.standard_normal(nch)
+        k1_, k2_ = sorted(int(x) for x in rng.choice(np.arange(5, nf - 5), 2, replace=False))
+        if k2_ - k1_ >= 4:
+            w_ = rng.uniform(1, 3) * df
+            amp_ = 1e3 * np.max(np.abs(S))
+            S += np.conj(a_)[:, None, None] * a_[None, :, None] * (amp_ / ((freq - freq[k1_]) ** 2 + w_**2) * w_**2)[None, None, :] / np.vdot(a_, a_).real
+            S += np.conj(b_)[:, None, None] * b_[None, :, None] * (amp_ * (1 + 10 ** rng.uniform(-7, -3)) / ((freq - freq[k2_]) ** 2 + w_**2) * w_**2)[None, None, :] / np.vdot(b_, b_).real
+            run_synth.twin = (freq[k1_], freq[k2_])
+        else:
+            run_synth.twin = None
+    else:
+        run_synth.twin = None
     near_nyq = rng.random() < 0.25
     if near_nyq:
         # a tonal, nearly rank-one component in the last lines: the largest sigma1/sigma2 of the whole grid sits next to Nyquist
@@ -198,6 +216,11 @@ def run_synth(ctx, rng):
     Sval, Svec = fdd.SD_svalsvec(S)
     check_decomposition(ctx, Sc, Sval, Svec)
     sel, DF = draw_requests(rng, freq)
+    if getattr(run_synth, "twin", None) and not near_nyq:
+        f1_, f2_ = run_synth.twin
+        sel = [float(0.5 * (f1_ + f2_))]
+        DF = float(0.5 * (f2_ - f1_) + 3 * df)  # one band holding both peaks
+        ctx.state("two almost equally strong peaks in one band")
     if near_nyq:
         sel[0] = float(freq[0] + rng.uniform(0.5, 3) * df)
         DF = float(max(DF, sel[0] + rng.uniform(0.5, 3) * df))  # the band reaches below 0 Hz
@@ -222,6 +245,54 @@ def run_synth(ctx, rng):
         ctx.state("array object refilled in place")
     ctx.state("2 channels" if nch == 2 else ("8 channels" if nch == 8 else "3..7 channels"))
     ctx.sample({"entry": "fdd.SD_svalsvec + fdd.FDD_mpe (synthetic Hermitian)", "channels": nch, "lines": nf, "fs": fs, "sel_freq": sel, "DF_in_lines": DF / df})
+
+
+def run_designed(ctx, rng):
+    """FDD_mpe on a hand-made decomposition whose s1/s2 curve is prescribed: twin maxima a relative 1e-7..1e-4 apart (the later one larger),
+    very finely resolved smooth maxima, plateaus - the line with the LARGEST ratio of the band is the dominant one"""
+    from pyoma2.functions import fdd
+
+    nch = int(rng.integers(2, 6))
+    nf = int(rng.integers(60, 4000))
+    fs = float(10 ** rng.uniform(0, 3))
+    freq = np.arange(nf) * fs / (2 * (nf - 1))
+    df = freq[1]
+    kind = str(rng.choice(["twin", "fine", "plateau"]))
+    k0 = int(rng.integers(nf // 4, 3 * nf // 4))
+    x = np.arange(nf)
+    if kind == "twin":
+        gap = int(rng.integers(4, max(5, nf // 6)))
+        k1, k2 = k0 - gap // 2, k0 - gap // 2 + gap
+        w = float(rng.uniform(1, 3))
+        r = 1 + 50 / (1 + ((x - k1) / w) ** 2) + 50 * (1 + 10 ** rng.uniform(-7, -4)) / (1 + ((x - k2) / w) ** 2)
+        sel, DF = [float(freq[k0])], float((gap / 2 + 3) * df)
+    elif kind == "fine":
+        w = float(rng.uniform(0.02, 0.2) * nf)  # hundreds of lines per bandwidth
+        r = 1 + 1e3 / (1 + ((x - k0 - 0.3) / w) ** 2)
+        sel, DF = [float(freq[max(1, k0 - int(0.3 * w))])], float(0.8 * w * df)
+    else:
+        r = 1 + 10 / (1 + ((x - k0) / 5.0) ** 2)
+        r[k0 - 3:k0 + 4] = r[k0 - 3] * (1 + 1e-7 * np.arange(7))  # a nearly flat top, rising by 1e-7 per line
+        sel, DF = [float(freq[k0])], float(8 * df)
+    Sval = np.zeros((nch, nch, nf))
+    Sval[0, 0] = r
+    for c in range(1, nch):
+        Sval[c, c] = 1.0 / c
+    Q = np.linalg.qr(rng.standard_normal((nch, nch)) + 1j * rng.standard_normal((nch, nch)))[0]
+    Svec = np.repeat(Q[:, :, None], nf, axis=2) * np.exp(1j * rng.uniform(0, 2 * np.pi, nf))[None, None, :]
+    Fn, Phi = fdd.FDD_mpe(Sval, Svec, freq, list(sel), DF=DF)
+    ctx.ev("pick@FDD_mpe(designed ratio curve)")
+    i0 = int(np.argmin(np.abs(freq - (sel[0] - DF))))
+    i1 = int(np.argmin(np.abs(freq - (sel[0] + DF))))
+    i = int(np.argmin(np.abs(freq - np.atleast_1d(Fn)[0])))
+    ratio = Sval[0, 0] / Sval[1, 1]
+    inner = np.arange(i0 + 1, i1)
+    if ctx.check(abs(freq[i] - np.atleast_1d(Fn)[0]) <= 1e-12 * freq[-1] and i0 <= i <= i1, "designed:not_a_line_of_the_band", lambda: f"Fn={Fn} for band lines [{i0},{i1}]"):
+        best = int(inner[np.argmax(ratio[inner])])
+        ctx.check(ratio[i] >= ratio[inner].max() * (1 - 1e-12), "designed:not_the_largest_ratio_of_the_band",
+                  lambda: f"{kind}: line {i} returned (ratio {ratio[i]!r}), the largest s1/s2 of the band is at line {best} (ratio {ratio[best]!r}, relative excess {ratio[best]/ratio[i]-1:.2e})")
+    ctx.state(f"designed ratio curve: {kind}")
+    ctx.nontrivial(("designed", kind, nf, nch))
 
 
 def run_half(ctx, rng):
@@ -314,6 +385,21 @@ def run_classes(ctx, rng):
             if ctx.check(len(rec) >= 1 and rec[0][2] == DF1b, "efdd:repeated_extraction_keeps_previous_band",
                          lambda: f"second EFDD.mpe with DF1={DF1b:.4g} (first {DF1:.4g}): first stage called with {[r[2] for r in rec]}"):
                 check_pick(ctx, "pick@EFDD first stage", "efdd_repeat", np.asarray(e.result.Sy), np.asarray(e.result.freq), sel, DF1b, rec[0][3][0], rec[0][3][1])
+        # history: another algorithm with a spectrum of the SAME shape but other content (the other estimator) run and extracted in between:
+        # what the first algorithm stores must still be the decomposition of ITS spectral matrix
+        from pyoma2.algorithms import FSDD
+        nx_same = int(a.run_params.nxseg)
+        g_ = FSDD(name="fsdd_same_shape", nxseg=nx_same, method_SD=("cor" if method == "per" else "per"))
+        ss.add_algorithms(g_)
+        ss.run_by_name("fsdd_same_shape")
+        try:
+            ss.mpe("fsdd_same_shape", sel_freq=list(sel), DF1=DF1, DF2=3.0)
+        except Exception:  # noqa: BLE001
+            pass
+        ctx.state("two spectra of one shape and different content in one setup")
+        check_decomposition(ctx, np.asarray(a.result.Sy), np.asarray(a.result.S_val), np.asarray(a.result.S_vec))
+        ss.mpe("fdd", sel_freq=list(sel), DF=DF)
+        check_pick(ctx, "pick@FDD.mpe", "cls_after_other_algorithm", np.asarray(a.result.Sy), np.asarray(a.result.freq), sel, DF, a.result.Fn, a.result.Phi)
         # multi setup
         ms = MultiSetup_PreGER(fs, [[0, 1], [1, 0]], [data[:4000, :].copy(), data[4000:, : nch - 1].copy()])
         f = FDD_MS(name="fdd_ms", nxseg=256, method_SD=method)
@@ -359,4 +445,4 @@ def run_case(ctx, case):
     if case["cls"] == "plumbing":
         return plumbing.run_case(ctx, case, gen.rng_of(case), PLUMB_FIELDS)
     rng = gen.rng_of(case)
-    {"hermitian_synthetic": run_synth, "half_spectrum": run_half, "through_classes": run_classes, "narrow_band": run_narrow}[case["cls"]](ctx, rng)
+    {"hermitian_synthetic": run_synth, "half_spectrum": run_half, "through_classes": run_classes, "narrow_band": run_narrow, "designed_ratios": run_designed}[case["cls"]](ctx, rng)
